@@ -59,11 +59,11 @@ def find_sites(fi: FuncInfo) -> List[MemoSite]:
                 for c in comp:
                     out.append(MemoSite(cache, st, key, c.value, look))
                 continue
-        # (b)
-        rets = [n for n in ast.walk(fi.node) if isinstance(n, ast.Return) and n.value is not None and _is_lookup(n.value, cache, kt)]
+        # (b) membership test on the same key + store + any later read of C[K] (returned or bound)
+        reads = [n for n in ast.walk(fi.node) if isinstance(n, ast.Subscript) and isinstance(n.ctx, ast.Load) and _is_lookup(n, cache, kt)]
         tests = [n for n in ast.walk(fi.node) if isinstance(n, ast.Compare) and len(n.ops) == 1 and isinstance(n.ops[0], (ast.In, ast.NotIn)) and norm(n.comparators[0]) == cache and norm(n.left) == kt]
-        if rets and tests:
-            out.append(MemoSite(cache, st, key, value, rets))
+        if reads and tests:
+            out.append(MemoSite(cache, st, key, value, reads))
     return out
 
 
@@ -314,6 +314,18 @@ def check_memo_keys(ctx, prefixes, rule="MEMO-KEY"):
         scanned += 1
         for site, vr, kr, missing in check_function(fi):
             sites += 1
+            if site.cache.startswith("self.") and fi.cls is not None:
+                attr = site.cache[len("self."):]
+                decl = None
+                for b in fi.cls.mro():
+                    if attr in b.consts:
+                        decl = b.consts[attr]
+                        break
+                init = fi.cls.find_method("__init__")
+                set_in_init = init is not None and any(isinstance(n, (ast.Assign, ast.AnnAssign)) and any(norm(t) == site.cache for t in (n.targets if isinstance(n, ast.Assign) else [n.target])) for n in ast.walk(init.node))
+                if decl is not None and isinstance(decl, (ast.Dict, ast.List, ast.Set, ast.Call, ast.DictComp, ast.ListComp)) and not set_in_init:
+                    ctx.fail(rule, fi, f"memo table `{site.cache}` belongs to the instance", f"`{attr}` is a mutable object created once in the class body and never re-created per instance: `{norm(site.store)[:70]}` fills ONE table shared by every {fi.cls.name}, so a second object is handed the entry a first one stored under the same key", site.store)
+                    continue
             missing, unguarded, invalidated = classify_state_roots(fi, site, missing)
             for r, m, n in unguarded:
                 ctx.fail(rule, m, f"memo table `{site.cache}` of {fi.short} is refreshed when `{r}` changes", f"`{norm(n)[:70]}` changes `{r}`, which the entries of `{site.cache}` (filled by {fi.short}) were computed from, without touching the table: later lookups return entries computed from the old state", n)
